@@ -222,9 +222,11 @@ Proof.
   rewrite assoc_last_sort, assoc_last_map_vals.
   destruct (assoc_last k_signatures m) as [j|]; [|reflexivity]. simpl.
   destruct j; try reflexivity.
-  - (* an object *)
-    rewrite decode_sigs_normalise. rewrite normalise_obj.
-    destruct (decode_sigs (JObj m0)) as [sm|]; [|reflexivity]. simpl. apply lookup_sig_sorted.
+  rewrite normalise_obj. unfold sig_entry. rewrite assoc_last_sort, assoc_last_map_vals.
+  destruct (assoc_last name m0) as [e|]; [|reflexivity]. simpl.
+  destruct e; try reflexivity.
+  rewrite normalise_obj, assoc_last_sort, assoc_last_map_vals.
+  destruct (assoc_last kid m1) as [x|]; [|reflexivity]. simpl. apply decode_sig_normalise.
 Qed.
 
 Lemma strip_normalise v : strip (normalise v) = normalise (strip v).
